@@ -415,14 +415,14 @@ func TestC15RestPatch(t *testing.T) {
 					c.failf("%s: the operations at log positions %d and %d share the timestamp %s", when, j+1, i+1, key)
 				}
 				seen[key] = i
-			if !isOpen("S17b") {
-				// "each client numbers its operations on a datatype 1,2,3,... without gaps": in the log the
-				// operations of one client id carry consecutive sequence numbers from 1
-				if want := lastSeq[id.CUID] + 1; id.Seq != want {
-					c.failf("%s: the operation at log position %d is number %d of client id %s, but the previous operation of that client id in the log was number %d", when, i+1, id.Seq, id.CUID, want-1)
+				if !isOpen("S17b") {
+					// "each client numbers its operations on a datatype 1,2,3,... without gaps": in the log the
+					// operations of one client id carry consecutive sequence numbers from 1
+					if want := lastSeq[id.CUID] + 1; id.Seq != want {
+						c.failf("%s: the operation at log position %d is number %d of client id %s, but the previous operation of that client id in the log was number %d", when, i+1, id.Seq, id.CUID, want-1)
+					}
+					lastSeq[id.CUID] = id.Seq
 				}
-				lastSeq[id.CUID] = id.Seq
-			}
 				if i >= from && !knownCUIDs[id.CUID] && id.Lamport <= maxClock {
 					c.failf("%s: the REST patch operation at log position %d has clock %d, but the replica that issued it had already applied an operation with clock %d (log positions 1..%d)", when, i+1, id.Lamport, maxClock, i)
 				}
